@@ -22,6 +22,7 @@ ALPHABET = (0x00, ord('d'), ord('e'), ord('i'), ord('l'), ord(':'), ord('0'), or
 STRUCT4 = (ord('d'), ord('e'), ord('i'), ord('l'))
 HEAD = 16                      # "first 16 offsets (the structural part)"
 HANG_CPU_SECONDS = 1.0         # a single datagram_received burning this much CPU is a hang (normal: < 5 ms)
+MSG_SIZE_LIMIT = 1400          # the DHT never sends a larger datagram (wire description); replies are checked
 T_START = 1000.0               # node has been up > TOKEN_SECRET_REFRESH_INTERVAL
 KW = {b'protocolVersion': 1}
 
@@ -545,6 +546,93 @@ def handmade():
 
 
 # ================================================================================================
+# "size bounds meet multi-byte text": attacker-controlled fields that the node decodes or echoes back
+# (method name -> 'Invalid method: <name>' in the error reply, type and text of incoming error datagrams, integer
+# arguments whose digits end up in an error text), filled with 1-, 2-, 3- and 4-byte UTF-8 characters at every
+# total byte length in windows around the bounds in the code and at every alignment, plus invalid UTF-8 there.
+
+UTF8_FILLERS = {1: 'a', 2: 'é', 3: '€', 4: '\U0001f600'}
+UTF8_VARIANTS = ('valid', 'bad-first', 'bad-last', 'cut-last')
+UTF8_FIELDS = ('method', 'error-type', 'error-text')
+# bounds: error text limit 256 (characters; a wrong implementation would take bytes), 4 x 256 = 1024 bytes,
+# MSG_SIZE_LIMIT 1400 for the reply (envelope ~130 + 'Invalid method: ' 16 + name)
+UTF8_BOUNDS = (256, 1024, 1400)
+DIGIT_FIELDS = ('store-port', 'findValue-page')
+INT_STR_LIMIT = 4300           # CPython refuses int <-> str beyond this many digits
+
+
+def utf8_lengths(quick):
+    """Total byte lengths of the field value."""
+    if not quick:
+        return list(range(1, 1501))
+    out = set(range(216, 281)) | set(range(984, 1041)) | set(range(1230, 1411))
+    return sorted(out)
+
+
+def utf8_char_count_lengths(width, align):
+    """Extra lengths for a filler width: the character count (not the byte count) sweeps the 256 window."""
+    return [align + width * n for n in range(228, 265)]
+
+
+def digit_counts(quick):
+    if quick:
+        return list(range(230, 263)) + list(range(INT_STR_LIMIT - 10, INT_STR_LIMIT + 11))
+    return list(range(1, 301)) + list(range(INT_STR_LIMIT - 50, INT_STR_LIMIT + 51))
+
+
+def utf8_value(length, align, width, variant):
+    """align ASCII bytes, then as many width-byte characters as fit, then ASCII padding up to `length` bytes;
+    the invalid variants damage the first / the last multi-byte character (length unchanged)."""
+    if length < align:
+        return None
+    n, pad = divmod(length - align, width)
+    filler = UTF8_FILLERS[width].encode()
+    b = bytearray(b'x' * align + filler * n + b'y' * pad)
+    if variant == 'valid':
+        return bytes(b)
+    if n == 0:
+        return None
+    if variant == 'bad-first':
+        b[align] = 0xff
+    elif variant == 'bad-last':
+        b[align + width * (n - 1)] = 0xff
+    elif variant == 'cut-last':
+        if width == 1:
+            return None
+        b[align + width * n - 1] = ord('y')       # last character loses its final continuation byte
+    else:
+        raise ValueError(variant)
+    return bytes(b)
+
+
+def utf8_datagram(field, value):
+    """(sender, datagram) carrying `value` (bytes) in the named field."""
+    from refs import bencode as ref
+    s_id, c3_id = ACTORS['S'][0], ACTORS['C3'][0]
+    if field == 'method':
+        return 'S', ref.encode({0: 0, 1: h20(b'u8-method'), 2: s_id, 3: value, 4: [dict(KW)]})
+    if field == 'error-type':
+        return 'S', ref.encode({0: 2, 1: h20(b'u8-etype'), 2: s_id, 3: value, 4: b'x'})
+    if field == 'error-text':
+        pending_store = bases()[10][2][1]       # answers the in-flight store request: text goes into RemoteException
+        return 'C3', ref.encode({0: 2, 1: pending_store, 2: c3_id, 3: b"<class 'ValueError'>", 4: value})
+    raise ValueError(field)
+
+
+def digits_datagram(field, ndigits, negative):
+    from refs import bencode as ref
+    s_id = ACTORS['S'][0]
+    number = ref._Raw(b'i' + (b'-' if negative else b'') + b'9' * ndigits + b'e')
+    if field == 'store-port':
+        return 'S', ref.encode({0: 0, 1: h20(b'u8-port'), 2: s_id, 3: b'store',
+                                4: [BLOB_C, b't' * 48, number, s_id, 0, dict(KW)]})
+    if field == 'findValue-page':
+        return 'S', ref.encode({0: 0, 1: h20(b'u8-page'), 2: s_id, 3: b'findValue',
+                                4: [BLOB_A, ref._Raw(b'd1:p' + number.b + b'15:protocolVersioni1ee')]})
+    raise ValueError(field)
+
+
+# ================================================================================================
 # recipes -> datagrams
 
 def materialize(recipe):
@@ -578,6 +666,16 @@ def materialize(recipe):
         return 'short-string', recipe[1], data, f'byte string {data!r}'
     if kind == 'flood':
         return 'flood', recipe[1], bytes([recipe[2]]) * recipe[3], f'{recipe[3]} x {bytes([recipe[2]])!r}'
+    if kind == 'utf8':
+        _, field, length, align, width, variant = recipe
+        value = utf8_value(length, align, width, variant)
+        sender, data = utf8_datagram(field, value)
+        return 'utf8-bound:' + field, sender, data, \
+            (f'{field} of {length} bytes: {align} ASCII bytes + {width}-byte UTF-8 characters ({variant})')
+    if kind == 'digits':
+        _, field, ndigits, negative = recipe
+        sender, data = digits_datagram(field, ndigits, negative)
+        return 'digit-bound:' + field, sender, data, f'{field} = {"-" if negative else ""}{ndigits} digits'
     if kind == 'hand':
         name = recipe[2]
         data = dict(handmade())[name]
@@ -674,6 +772,10 @@ def run_case(recipe, res, log=None):
             if ds1 != ds0:
                 violation(dict(base, kind='state-changed', part='data_store'),
                           f'stored announcements changed by a malformed datagram ({verdict.reason}): {desc}')
+            oversize = [len(data) for data, _ in tr.sent if len(data) > MSG_SIZE_LIMIT]
+            if oversize:
+                violation(dict(base, kind='oversize-reply'),
+                          f'reply of {oversize[0]} bytes (> {MSG_SIZE_LIMIT}) to a malformed datagram ({verdict.reason}): {desc}')
             bad_replies = [r for r in replies if r != ('error', addr)]
             if bad_replies or len(replies) > 1:
                 violation(dict(base, kind='unexpected-reply', reply=sorted({r[0] or 'none' for r in replies})),
@@ -781,6 +883,19 @@ def handler_work(item, res):
     elif kind == 'flood':
         _, sender, sym, n = item
         run_case(('flood', sender, sym, n), res)
+    elif kind == 'utf8':
+        _, field, width, align, quick = item
+        lengths = sorted(set(utf8_lengths(quick)) | set(utf8_char_count_lengths(width, align)))
+        variants = UTF8_VARIANTS if field == 'method' else ('valid', 'bad-last')
+        for variant in variants:
+            for length in lengths:
+                if utf8_value(length, align, width, variant) is not None:
+                    run_case(('utf8', field, length, align, width, variant), res)
+    elif kind == 'digits':
+        _, field, quick = item
+        for nd in digit_counts(quick):
+            for negative in (False, True):
+                run_case(('digits', field, nd, negative), res)
     elif kind == 'hand':
         _, sender, lo, hi = item
         for name, _data in handmade()[lo:hi]:
@@ -1051,6 +1166,11 @@ def plan(tier):
                 items.append(('flood', sender, sym, 65507))
                 items.append(('flood', sender, sym, 1401))
         items += [('hand', sender, lo, lo + 12) for lo in range(0, len(handmade()), 12)]
+    for field in UTF8_FIELDS:
+        for width in UTF8_FILLERS:
+            for align in range(4):
+                items.append(('utf8', field, width, align, quick))
+    items += [('digits', field, quick) for field in DIGIT_FIELDS]
 
     def weight(it):       # rough number of cases, biggest first for a better pool balance
         if it[0] == 'sub2':
@@ -1062,10 +1182,15 @@ def plan(tier):
             return len(bs[it[1]][3]) * 10
         if it[0] == 'codec':
             return 2000
+        if it[0] == 'utf8':
+            return (2 if it[1] == 'method' else 1) * (1500 if quick else 6000)
         return 300
     items.sort(key=weight, reverse=True)
     return items, {'sub2_first_offsets': head2, 'sub3_first_offsets': head3, 'sub2_last_offsets': 0 if quick else HEAD,
-                   'sub2_all_offset_pairs_for': all_pairs}
+                   'sub2_all_offset_pairs_for': all_pairs,
+                   'utf8_field_byte_lengths': '216-280, 984-1040, 1230-1410 + 228-264 characters' if quick else '1-1500',
+                   'utf8_fields': list(UTF8_FIELDS), 'digit_fields': list(DIGIT_FIELDS),
+                   'digit_counts': '230-262, 4290-4310' if quick else '1-300, 4250-4350'}
 
 
 def run(ctx):
@@ -1110,7 +1235,11 @@ def run(ctx):
               'over {d,e,i,l} on the first H3 offsets (bounds: sub2_first_offsets / sub3_first_offsets), every '
               'replacement/deletion of every field by 17 values of all four bencode types; all byte strings of length <= 3 over the alphabet, 64 KiB of each symbol, nesting '
               'bombs, huge/negative lengths, integer syntax, oversize fields (hand-made list), each from a stranger '
-              'and from a contact. Non-trivial/distinct = distinct (sender, datagram bytes) other than the 12 '
+              'and from a contact; "size bounds meet multi-byte text": unknown method names and type/text of incoming '
+              'error datagrams made of 0..3 ASCII bytes + 1-, 2-, 3- or 4-byte UTF-8 characters at every total byte '
+              'length in windows around 256 / 1024 / 1400 bytes and around 256 characters (thorough: every length '
+              '1..1500), valid and with the first / last character damaged; integer arguments (store port, findValue '
+              'page) of every digit count around 256 and around CPython\'s 4300-digit int/str limit. Non-trivial/distinct = distinct (sender, datagram bytes) other than the 12 '
               'unmutated ones, plus distinct codec messages.'),
         exhaustive=True,
         bounds=dict(bounds, alphabet=[bytes([b]).decode('latin1') for b in ALPHABET], valid_datagrams=12,
